@@ -1,6 +1,6 @@
 """C16 - an invalid expression makes one node optional and never aborts validation: proof + bounded."""
 from checks.c13 import FUNCS, VALUEPOOL
-from checks.common import prove, prove_lemmas, run_bounded
+from checks.common import guarded, list_theory_obligations, prove, prove_lemmas, run_bounded
 from vlib.report import Ctx
 
 LEVEL = "proof"
@@ -17,5 +17,11 @@ def run(ctx: Ctx) -> None:
     prove(ctx, [FUNCS[2], FUNCS[3], FUNCS[4], FUNCS[5], FUNCS[8], VALUEPOOL])
     prove_lemmas(ctx, "contracts.validation_lemmas", ["invalid_node_is_like_kann"])
     run_bounded(ctx, "C16")
+    # several modal-mark parts: every part is evaluated whatever earlier parts yield (a normal return means no part is
+    # invalid), which rests on gather_if_necessary letting an item's InvalidExpressionError (a BaseException) through
+    prove(ctx, ["ahbicht.expressions.ahb_expression_evaluation:AhbExpressionTransformer._ahb_expression_async",
+                "ahbicht.utility_functions:gather_if_necessary#loop"])
+    prove(ctx, ["ahbicht.utility_functions:gather_if_necessary#body"], kind="B (bounded by list length <= 4, symbolic contents)")
+    list_theory_obligations(ctx)
     from bounded import multipart_invalid
-    multipart_invalid.run(ctx, "C16")
+    guarded(ctx, "C16", lambda: multipart_invalid.run(ctx, "C16"))
